@@ -293,3 +293,34 @@ TRUSTED_BASE = [
     'modelled, not verified: reflect-level behaviour of the evaluator (the model works on JSON-level values); Go standard library functions re-implemented in Gallina (strconv, encoding/json rendering, utf8, math.Mod/Floor/Ceil/Trunc, base64, url escaping, time calendar) validated against the real functions by the correspondence, not proved equal to them; regexp (RE2), math.Pow, Unicode case tables are oracles answered by the standard library itself',
     'the correspondence between model and /repo is sampling (seeded, replayable)',
 ]
+
+
+def simple_run(pid, tier, seed, replay, rule, cases_fn, owner_direct=(), unordered_tag='unordered', chunk=20000,
+               proof_props=None, panics_are=None, value_compare=True, timeout_ms=5000, post=None, extra_cov=None):
+    """The common shape of a check: build, proofs, cases through both sides, analysis, evidence."""
+    from . import wirepy
+    ck = Check(pid, tier, seed, '', rule)
+    if not ck.build(proof_props):
+        return ck.finish()
+    proofs_ok = ck.proof_status(proof_props)
+    cs = replay if replay else cases_fn(tier, seed)
+    for i in range(0, len(cs), chunk):
+        part = cs[i:i + chunk]
+        res, crashed, err = run_cases(ck.b, part, pid, timeout_ms=timeout_ms)
+        for c in part:
+            r = res.get(c['id'])
+            if r and unordered_tag in c.get('tags', []) and r.get('model') and r.get('impl') != r.get('model'):
+                a, b = wirepy.value(r['impl']), wirepy.value(r['model'])
+                if a is not None and b is not None and wirepy.deep_multiset(a) == wirepy.deep_multiset(b):
+                    r['model'] = r['impl']
+                    ck.stats['agree_as_multiset'] += 1
+        ck.std_analyze(part, res, crashed, owner_direct=owner_direct, panics_are=panics_are, value_compare=value_compare)
+        if post:
+            post(ck, part, res)
+        for c in part:
+            for t in c.get('tags', [])[:2]:
+                ck.dist['tags'][t] += 1
+    if not proofs_ok:
+        pid2, log = ck.proof_broken
+        ck.report_violation({'kind': 'proof-broken', 'theorems': 'Properties/%s.v' % pid2, 'log': log}, no_input=not ck.violations)
+    return ck.finish(extra_cov=extra_cov)
